@@ -322,6 +322,13 @@ fn dec(t: &[&str]) -> Out {
     match t[0] {
         "pk" => ok1(tr!(BBSplusPublicKey::from_bytes(&b)).to_bytes()),
         "sk" => ok1(tr!(BBSplusSecretKey::from_bytes(&b)).to_bytes()),
+        // the same keys through the scheme-generic traits (PrivateKey / PublicKey): to_bytes and the hex form `encode`
+        "sktrait" => ok1(<BBSplusSecretKey as zkryptium::keys::traits::PrivateKey>::to_bytes(&tr!(BBSplusSecretKey::from_bytes(&b)))),
+        "skenc" => ok1(tr!(hex::decode(<BBSplusSecretKey as zkryptium::keys::traits::PrivateKey>::encode(&tr!(BBSplusSecretKey::from_bytes(&b)))))),
+        "skinhenc" => ok1(tr!(hex::decode(tr!(BBSplusSecretKey::from_bytes(&b)).encode()))),
+        "pktrait" => ok1(<BBSplusPublicKey as zkryptium::keys::traits::PublicKey>::to_bytes(&tr!(BBSplusPublicKey::from_bytes(&b)))),
+        "pkenc" => ok1(tr!(hex::decode(<BBSplusPublicKey as zkryptium::keys::traits::PublicKey>::encode(&tr!(BBSplusPublicKey::from_bytes(&b)))))),
+        "pkinhenc" => ok1(tr!(hex::decode(tr!(BBSplusPublicKey::from_bytes(&b)).encode()))),
         "sig" => ok1(tr!(BBSplusSignature::from_bytes(tr!(sig80(&b)))).to_bytes()),
         "proof" => ok1(tr!(BBSplusPoKSignature::from_bytes(&b)).to_bytes()),
         "zkpok" => ok1(tr!(BBSplusZKPoK::from_bytes(&b)).to_bytes()),
